@@ -118,7 +118,7 @@ loop:
 				if err == nil {
 					break loop
 				}
-				if _, ok := err.(*HaltError); ok {
+				if isHaltError(err) {
 					break loop
 				}
 				pc, backtrack, err = code.v.(int), false, nil
